@@ -286,6 +286,7 @@ func main() {
 			nwire++
 		}
 		tr.Emit(map[string]interface{}{"event": "Start", "path": path, "n": w.info.GetMemberCount(), "k": r.Threshold()})
+		dead := false
 		for _, m := range hist {
 			cvm, dataHash, shareBytes, rndBytes := w.build(m, wire)
 			facts := map[string]interface{}{
@@ -304,8 +305,16 @@ func main() {
 				}()
 				if cvm == nil {
 					errText = "discarded by the wire decoder"
+				} else if dead {
+					// an error returned by a round's Update is forwarded to the party's error
+					// channel; Processor.waitUntilDone then closes the party and every later
+					// message for this block is dropped (loadOrNewSignParty: "already done")
+					errText = "party closed after an earlier error"
 				} else if r.CanAccept(cvm) == 0 { // as baseParty.Update dispatches
 					errText = r.Update(cvm)
+					if errText != "" {
+						dead = true
+					}
 				} else {
 					errText = "not accepted by round"
 				}
